@@ -160,7 +160,12 @@ def prepare(scratch, kfiles):
             with open(p, "a") as f:
                 f.write("\n" + "\n".join(body) + "\n")
             applied.append("cfg(kani) hook appended to %s" % file)
-    # Kani wants the lock file next to the manifest; it is already there (copied).
+    # cfg(kani)-only helper crate with stubs that need `unsafe` (the unimock crate forbids unsafe_code)
+    stubs = os.path.join(scratch, "verif_stubs")
+    shutil.copytree(os.path.join(KDIR, "verif_stubs"), stubs)
+    with open(os.path.join(scratch, "Cargo.toml"), "a") as f:
+        f.write('\n[target.\'cfg(kani)\'.dependencies]\nverif_stubs = { path = "verif_stubs" }\n')
+    applied.append("Cargo.toml: [target.'cfg(kani)'.dependencies] verif_stubs (path crate) appended")
     return applied
 
 
